@@ -157,8 +157,20 @@ def load_raw(repo=REPO, verbose=False):
 
 
 def prune_cache(keep, maxn=6):
+    """Keep the newest `maxn` extracted trees. Work directories of extractions in progress (facts_*) belong to other
+    processes that may run concurrently: they are removed only when clearly abandoned (older than two hours)."""
     try:
-        ents = [(os.path.getmtime(os.path.join(CACHE, d)), d) for d in os.listdir(CACHE) if d != keep]
+        now = time.time()
+        ents = []
+        for d in os.listdir(CACHE):
+            if d == keep:
+                continue
+            p = os.path.join(CACHE, d)
+            if d.startswith("facts_"):
+                if now - os.path.getmtime(p) > 7200:
+                    shutil.rmtree(p, ignore_errors=True)
+                continue
+            ents.append((os.path.getmtime(p), d))
         ents.sort(reverse=True)
         for _, d in ents[maxn:]:
             shutil.rmtree(os.path.join(CACHE, d), ignore_errors=True)
